@@ -207,6 +207,11 @@ func (p *Prog) fname(f *ssa.Function) string {
 	if f.Pkg == p.SUPkg && f.Signature.Recv() == nil && f.Parent() == nil {
 		return "http2utils." + f.Name()
 	}
+	if f.Pkg != p.SPkg && f.Parent() == nil {
+		if o, ok := f.Object().(*types.Func); ok && o != nil {
+			return p.funcName(o)
+		}
+	}
 	return f.RelString(p.Pkg)
 }
 
